@@ -12,7 +12,7 @@ from .. import rules, flow
 from ..rules import (param_by_name, one_call, term_of_operand, term_of_local, term_of_place, term_str, callee_name, err_exits,
                      forward_may, variant_discr)
 from ..flow import term_contains
-from .common import ctx, short_site
+from .common import ctx, short_site, is_session_replacement, SESSION_REPLACERS
 
 PID = 'C06'
 MAXC = 0xFFFFFFFF
@@ -79,6 +79,9 @@ def run(tier):
     for (b, bb, si, s, kind) in ws:
         if b.exp and 'derive' in b.exp:
             continue
+        if is_session_replacement(b, s, kind):
+            res.require(True, 'C06:who-writes:fcnt_up:%s' % '::'.join(b.path.split('::')[-2:]), '', None, 'WHO-WRITES(fcnt_up)', instance='session replaced as a whole: %s (%s)' % (b.path, SESSION_REPLACERS[b.path]))
+            continue
         seen.add(b.path)
         res.require(allowed.get(b.path) == kind, 'C06:who-writes:fcnt_up:%s' % '::'.join(b.path.split('::')[-2:]),
                     'unexpected writer of Session.fcnt_up (%s)' % kind, flow.Site(b, bb, si), 'WHO-WRITES(fcnt_up)',
@@ -123,6 +126,11 @@ def run(tier):
             n_ret += 1
             cn = callee_name(t)
             good = cn.endswith('Session::rx2_complete') or hbf.cfg.dominates(hstore, b.idx)
+            if not good and cn.endswith('Into::into') and rules.is_call_suffix(term_of_operand(hbf, t.args[0]), 'multicast::Multicast::handle_rx'):
+                # multicast build: a frame on a multicast port is answered by the multicast handler before the unicast path.
+                # The pending uplink is then completed by the front-end (rule multicast_class_a below) - or the panic of the
+                # non-blocking front-end's conversion stops the device (C04, all-features build).
+                good = multicast_class_a(c, res)
             res.require(good, 'C06:Session::handle_rx:response-without-increment:%s' % cn.split('::')[-1],
                         'handle_rx returns the result of %s before incrementing fcnt_up' % cn, short_site(hbf, b.idx),
                         'DOM(response != NoUpdate => increment)', instance='handle_rx: returns %s()' % cn.split('::')[-1])
@@ -162,6 +170,90 @@ def run(tier):
     res.assumptions = ['Session.fcnt_up is a pub field: writes from outside the workspace are not analysed',
                        'a frame offered to the radio whose tx call fails is counted as handed to the radio (conservative)']
     return res
+
+
+def multicast_class_a(c, res):
+    """async front-end, multicast build: a multicast response that ends a Class A window (handle_mac_response called with
+    rx_config = None returns Ok(Some(..))) is preceded by Mac::rx2_complete on every path"""
+    fn = 'lorawan_device::async_device::Device::handle_mac_response::{closure#0}'
+    if not c.has(fn):
+        return False
+    bf = c.bf(fn)
+    starts = [bb for bb, t in bf.calls() if callee_name(t).endswith('multicast::Response::is_transmit_request')]
+    if len(starts) != 1:
+        return False
+    # "not a Class A window" edges: Option::is_none(&rx_config) evaluated false
+    rx_cfg = None
+    edges = []
+    for bb, t in bf.calls():
+        if callee_name(t).endswith('Option::is_none'):
+            a = term_of_operand(bf, t.args[0])
+            if 'RxConfig' in (t.args[0].place.ty if t.args[0].place is not None else ''):
+                al = bf.aliases(t.dest.local)
+                for b2 in bf.body.blocks:
+                    t2 = b2.term
+                    if not b2.cleanup and t2.k == 'switch' and t2.discr.place is not None and t2.discr.place.is_local() and t2.discr.place.local in al:
+                        edges += [(b2.idx, tgt) for val, tgt in t2.targets if val == 0]
+                rx_cfg = a
+    # may-analysis with two components: (increment seen?, outcomes of pure predicate calls taken so far). A second call of the
+    # same predicate on the same unmodified value cannot take the other outcome (the `a && p(x)` ... `if p(x)` idiom).
+    inc_bbs = set(bb for bb, t in bf.calls() if callee_name(t).endswith('Mac::rx2_complete'))
+    pred_edges = {}
+    pred_roots = {}
+    for bb, t in bf.calls():
+        cn = callee_name(t)
+        if cn.endswith(('multicast::Response::is_for_async_mc_response', 'multicast::Response::is_transmit_request')) and t.args and t.args[0].place is not None:
+            key = (cn, term_str(term_of_operand(bf, t.args[0])))
+            root = bf.root_of_place(t.args[0].place)[0] if hasattr(bf, 'root_of_place') else None
+            al = bf.aliases(t.dest.local)
+            for b2 in bf.body.blocks:
+                t2 = b2.term
+                if not b2.cleanup and t2.k == 'switch' and t2.discr.place is not None and t2.discr.place.is_local() and t2.discr.place.local in al:
+                    for val, tgt in t2.targets:
+                        if val == 0:
+                            pred_edges[(b2.idx, tgt)] = (key, False)
+                    pred_edges[(b2.idx, t2.otherwise)] = (key, True)
+    written = {}
+    for b2 in bf.body.blocks:
+        for s_ in b2.stmts:
+            if s_.k == 'assign' and s_.rv.k == 'agg' and (s_.rv.d.get('adt') or '').endswith('multicast::Response'):
+                written[b2.idx] = True
+
+    def node_fn(bb, v):
+        inc, facts = v
+        if bb in inc_bbs:
+            inc = True
+        if bb in written:
+            facts = frozenset()
+        return (inc, facts)
+
+    def edge_fn(u, w, v):
+        inc, facts = v
+        if (u, w) in edges:
+            inc = True
+        pe = pred_edges.get((u, w))
+        if pe is not None:
+            if (pe[0], not pe[1]) in facts:
+                return None
+            facts = facts | {pe}
+        return (inc, facts)
+    st = forward_may(bf, starts, {(False, frozenset())}, node_fn, edge_fn)
+    ok = True
+    n = 0
+    for b in bf.body.blocks:
+        if b.cleanup or b.idx not in st:
+            continue
+        for si, s_ in enumerate(b.stmts):
+            if s_.k == 'assign' and s_.lhs.is_local() and s_.lhs.local == 0 and s_.rv.k == 'agg' and s_.rv.d.get('variant') == 'Ok':
+                v = rv_term(bf, s_.rv)
+                if term_contains(v, lambda y: isinstance(y, tuple) and y[:2] == ('agg', 'core::option::Option::Some')):
+                    n += 1
+                    if any(not inc for inc, _ in st[b.idx]):
+                        ok = False
+    res.require(ok and n >= 1, 'C06:async::handle_mac_response:multicast-ends-class-a-window-without-increment',
+                'a multicast response can end a Class A receive window (Ok(Some(..)) with rx_config = None) without Mac::rx2_complete: the pending uplink keeps its frame counter and the next uplink reuses it',
+                fn, 'MPT(multicast response in a Class A window -> rx2_complete)', instance='handle_mac_response: a multicast response that ends a Class A window is preceded by rx2_complete()')
+    return ok and n >= 1
 
 
 def exits_without_inc(c, bf, starts, inc_calls=(), inc_edges=()):
@@ -257,6 +349,37 @@ def async_no_reuse(c, res):
     # start: the frame is handed to the radio at the tx call
     bad, st = exits_without_inc(c, sbf, [tx.call_bb], inc_calls=[], inc_edges=inc_edges)
     report_exits(c, res, sbf, 'send', st)
+    # --- every other place of the async front-end that hands a data frame to the radio (answers sent from handle_mac_response
+    #     in the certification / multicast builds): the same must-pass-through rule from each radio.tx site
+    n_tx_sites = 0
+    for body in c.prog.bodies.values():
+        if body.crate != 'lorawan_device' or not body.path.startswith(D) or body.stage == 'promoted':
+            continue
+        xbf = c.pf.bf(body)
+        txs = [a for a in xbf.awaits() if rules.short_fn(a.callee) == 'PhyRxTx::tx']
+        if not txs:
+            continue
+        fname = body.path[len(D):].replace('::{closure#0}', '')
+        for a in txs:
+            n_tx_sites += 1
+            if fname in ('send', 'join'):
+                continue            # send: judged above; join: a JoinRequest carries no frame counter
+            prepared = [callee_name(t).split('::')[-1] for bb_, t in xbf.calls() if callee_name(t).endswith(('Mac::multicast_setup_send', 'Mac::certification_setup_send', 'Mac::send'))
+                        and xbf.cfg.dominates(bb_, a.call_bb)]
+            bad, st2 = exits_without_inc(c, xbf, [a.call_bb], inc_calls=['Mac::rx2_complete'], inc_edges=[])
+            okx = True
+            for b in body.blocks:
+                if b.cleanup or b.idx not in st2:
+                    continue
+                for si, s_ in enumerate(b.stmts):
+                    if s_.k == 'assign' and s_.lhs.is_local() and s_.lhs.local == 0 and s_.rv.k == 'agg' and s_.rv.d.get('variant') == 'Ok' and False in st2[b.idx]:
+                        okx = False
+            res.require(okx, 'C06:async::%s:tx(%s):ok-exit-without-increment' % (fname, ','.join(prepared) or '?'),
+                        '%s transmits a data frame prepared by %s and can return Ok without any increment of fcnt_up: the next uplink reuses the counter of that frame' % (fname, prepared or 'an unknown builder'),
+                        short_site(xbf, a.call_bb), 'MPT(tx -> increment before Ok exit)', instance='async::%s: frame prepared by %s is followed by rx2_complete() before Ok' % (fname, ','.join(prepared)))
+    if n_tx_sites < 2:
+        raise CheckError('floor: radio.tx sites of the async front-end %d < 2' % n_tx_sites)
+    res.coverage['async_tx_sites'] = n_tx_sites
     res.coverage['async_error_exits'] = sum(len(err_exits(b)) for b in (sbf, dbf, lbf))
     if res.coverage['async_error_exits'] < 11:
         raise CheckError('floor: async error exits enumerated %d < 11' % res.coverage['async_error_exits'])
